@@ -338,6 +338,24 @@ def fmt_dur(td: dt.timedelta) -> str:
     return out
 
 
+def fmt_dur_as(td: dt.timedelta, style: str) -> str:
+    """The same period in another ISO 8601 notation: 'weeks' (P1W4D), 'hours' (PT264H), 'minutes', 'seconds', 'days-hours' (P10DT24H); 'days' = fmt_dur."""
+    total = int(td.total_seconds())
+    if style == "weeks" and total >= 7 * 86400:
+        w, rem = divmod(total, 7 * 86400)
+        rest = fmt_dur(dt.timedelta(seconds=rem))[1:] if rem else ""
+        return f"P{w}W{rest}"
+    if style == "hours" and total % 3600 == 0:
+        return f"PT{total // 3600}H"
+    if style == "minutes" and total % 60 == 0:
+        return f"PT{total // 60}M"
+    if style == "seconds":
+        return f"PT{total}S"
+    if style == "days-hours" and total >= 86400:
+        return fmt_dur(dt.timedelta(seconds=total - 86400))[:] .split("T")[0] + "T24H" if (total - 86400) % 86400 == 0 else fmt_dur(td)
+    return fmt_dur(td)
+
+
 def xml_key(k: dict, ind="      ") -> str:
     return (f'{ind}<Key keyIdentifier="{k["id"]}" keyTag="{k["tag"]}">\n'
             f"{ind}  <TTL>{k['ttl']}</TTL>\n{ind}  <Flags>{k['flags']}</Flags>\n{ind}  <Protocol>{k.get('proto', 3)}</Protocol>\n"
